@@ -97,6 +97,15 @@ def runCache (r : Report) (s : Section) : Report := Id.run do
           r.violation s.idx l.idx s!"struct=cache op=[{joinSp l.op}] expiry {nsI} outside [0.95,1.05]*{base}" else r
       if 20 * ns ≤ 19 * base + 20 then r.addCover "cache-jitter-low-end"
       else if 20 * ns + 20 ≥ 21 * base then r.addCover "cache-jitter-high-end" else r
+    -- the property's words "evicts in least-recently-used order / never more than its limit", on what the REAL cache
+    -- reported: an eviction is due only when a NEW key arrives at a cache that already holds `limit` live entries
+    -- (`a` = the reference cache before the operation); anything else evicts a live entry for no reason (e.g. a
+    -- recency list that still carries keys which are gone)
+    let evictClause := fun (r : Report) (k : Nat) =>
+      let ev := kvStr obs "evict"
+      if ev ≠ "" ∧ ev ≠ "-" ∧ (limit = 0 ∨ a.data.length < limit ∨ ahas a.data k) then
+        r.violation s.idx l.idx s!"struct=cache op=[{joinSp l.op}] evicted {ev} although the cache held {a.data.length} live entries (limit {limit}) and key {k} was {if ahas a.data k then "cached" else "new"}: no eviction is due"
+      else r
     -- `setd k v rand` = Cache.Set: SetWithExpire with the configured default expiry
     let lop := match l.op with
       | ["setd", k, v, j] => ["set", k, v, toString expireI, j]
@@ -117,6 +126,7 @@ def runCache (r : Report) (s : Section) : Report := Id.run do
         let (c', o) := if nsI ≤ 0 then CacheG.setNoTimer C12.step c k v else c.step (.set k v ticks)
         let (a', ao) := if nsI ≤ 0 then CacheG.setNoTimer C12.Spec.step a k v else a.step (.set k v ticks)
         if ¬ o.evicted.isEmpty then r := r.addCover "cache-evict"
+        r := evictClause r k
         r := judge r s!"ns={nsI} {outEvents o}" s!"ns={nsI} {outEvents ao}"
         if ao.evicted.length > 0 ∧ a.data.length < limit then
           r := r.violation s.idx l.idx s!"struct=cache evicted below the limit op=[{joinSp l.op}]"
@@ -163,6 +173,7 @@ def runCache (r : Report) (s : Section) : Report := Id.run do
         if ¬ o.loaded ∧ o.result = some 0 then r := r.addCover "cache-take-hit-nil-value"
         let fmt := fun (ret : TakeRet) (o : CacheOut) =>
           s!"{takeRetS ret} calls={if o.loaded then 1 else 0} ns={nsI} {outEvents o}"
+        r := evictClause r k
         r := judge r (fmt (CacheG.takeRet c k ld) o) (fmt (CacheG.takeRet a k ld) ao)
         -- the property's words: the loader runs only on a miss
         if kvNat obs "calls" 0 > 0 ∧ (alookup a.data k).isSome then
